@@ -91,15 +91,16 @@ def algebra_jacobians(ctx, spec, N, chunk):
     ctx.cells_from("jacobians:" + name, pr)
     ctx.require("cell:jacobians:" + name)
     rJl, rJr = ref_jacobians(spec, X)
-    # conditioning of the inverse near 2pi: |J^-1| ~ 1/(2pi - theta)
+    # conditioning of the inverse near 2pi: |J^-1| ~ 1/(2pi - theta), a first-order pole (the allowance was cond^2 at first;
+    # the unchanged tree stays four orders of magnitude below it, and a 1e-8 regulariser of theta^2 hid inside it)
     cond = np.maximum(1.0, 1.0 / np.maximum(2 * PI - ang, 0.05))
     ctx.check_array("left_jacobian_is_dexp", name, np.abs(Jl - rJl).max(axis=(1, 2)), 1e-9 * sc, {"x": X})
     ctx.check_array("right_jacobian_is_dexp", name, np.abs(Jr - rJr).max(axis=(1, 2)), 1e-9 * sc, {"x": X})
     I = np.eye(na)
     ctx.check_array("left_inv_is_inverse", name, np.maximum(np.abs(Jl @ Jli - I).max(axis=(1, 2)), np.abs(Jli @ Jl - I).max(axis=(1, 2))),
-                    1e-9 * sc ** 2 * cond ** 2, {"x": X})
+                    1e-9 * sc ** 2 * cond, {"x": X})
     ctx.check_array("right_inv_is_inverse", name, np.maximum(np.abs(Jr @ Jri - I).max(axis=(1, 2)), np.abs(Jri @ Jr - I).max(axis=(1, 2))),
-                    1e-9 * sc ** 2 * cond ** 2, {"x": X})
+                    1e-9 * sc ** 2 * cond, {"x": X})
     # J_l = Ad_exp(x) J_r with the oracle's Ad = expm(ad)
     AdE = O.expm_batch(oracle_ad(spec, X))
     ctx.check_array("Jl_is_Ad_exp_Jr", name, np.abs(Jl - AdE @ Jr).max(axis=(1, 2)), 1e-9 * sc ** 2, {"x": X})
@@ -147,8 +148,8 @@ def algebra_jacobians(ctx, spec, N, chunk):
         condn = np.maximum(1.0, 1.0 / np.maximum(2 * PI - spec.alg_angle(Xn), 0.05))
         ctx.check_array("numeric_left_jacobian_is_dexp", name, el_, 1e-9 * scn, {"x": Xn})
         ctx.check_array("numeric_right_jacobian_is_dexp", name, er_, 1e-9 * scn, {"x": Xn})
-        ctx.check_array("numeric_left_inv_is_inverse", name, eli_, 1e-9 * scn ** 2 * condn ** 2, {"x": Xn})
-        ctx.check_array("numeric_right_inv_is_inverse", name, eri_, 1e-9 * scn ** 2 * condn ** 2, {"x": Xn})
+        ctx.check_array("numeric_left_inv_is_inverse", name, eli_, 1e-9 * scn ** 2 * condn, {"x": Xn})
+        ctx.check_array("numeric_right_inv_is_inverse", name, eri_, 1e-9 * scn ** 2 * condn, {"x": Xn})
     ctx.sample({"algebra": name, "x": X[min(len(X) - 1, 5)]})
 
 
